@@ -75,6 +75,9 @@ func main() {
 	for i := 0; i < c.Pick(10, 200); i++ { // the real memdb metadata/index workers with flush events between the rows
 		jobs = append(jobs, job{"memdb", i, false})
 	}
+	for i := 0; i < c.Pick(8, 80); i++ { // a reader parked between its kv load of a schema and its return, flushes in between
+		jobs = append(jobs, job{"schemacache", i, false})
+	}
 	scratch := c.Scratch()
 	results := make([]*caseResult, len(jobs))
 	raceOut := make([]string, len(jobs))
